@@ -289,6 +289,11 @@ class H2Protocol:
                     pass
             elif isinstance(event, h2.events.StreamReset):
                 await self._close_stream(event.stream_id)
+                # Nothing more can be sent on the stream, release any
+                # sender waiting on flow control. The send task then
+                # discards the buffer.
+                if event.stream_id in self.stream_buffers:
+                    await self.stream_buffers[event.stream_id].close()
                 await self._window_updated(event.stream_id)
             elif isinstance(event, h2.events.WindowUpdated):
                 await self._window_updated(event.stream_id)
